@@ -627,9 +627,13 @@ class Run:
         state = {'exc': None, 'invoked': False}
         run = self
 
+        # arguments for the root function: handed through unchanged (they are not part of any cache key)
+        r_args = [self.build_no, 'ra', [1, {'z': (2,)}]]
+        r_kw = {'rk': {'a': [self.build_no]}, 'flag': None}
+
         def rootfn(b, *a, **k):
             state['invoked'] = True
-            run.ev(ev='root_begin')
+            run.ev(ev='root_begin', sent=terms.show(r_args) + terms.show(r_kw), recv=terms.show(list(a)) + terms.show(dict(k)))
             try:
                 return run.run_frame(b, root)
             except BaseException as x:
@@ -657,9 +661,9 @@ class Run:
         def the_build():
             try:
                 if a_vers == {} and not bad and self.build_no % 2:
-                    v = FileBuilder.build(a_cache, a_name, a_func)       # the short form: no versions
+                    v = FileBuilder.build(a_cache, a_name, a_func, *r_args, **r_kw)     # the short form: no versions
                 else:
-                    v = FileBuilder.build_versioned(a_cache, a_name, a_vers, a_func)
+                    v = FileBuilder.build_versioned(a_cache, a_name, a_vers, a_func, *r_args, **r_kw)
                 return {'out': 'returned', 'v': terms.to_term(v), 'err': '', 'same': False}
             except (Exception, UserBaseError) as x:
                 return {'out': 'raised', 'v': {'k': 'none'}, 'err': x.__class__.__name__,
